@@ -4,7 +4,7 @@ from verif.core import Infra
 META = dict(
     technique="TLC exhaustive model check of Shutdown.tla (ShutdownWithContext: stop flag, listeners, Done, closeIdleConns scan with its idle test and Close as separate steps, open counter poll; Serve return; connection loop with first byte / handler / buffered write / flush / idle mark / stop check / unregister) incl. liveness + TLC trace validation of hook-recorded executions of the real Server (B2) + directed interleavings forced with blocking hooks + black-box comparison of what every client received",
     design_ref="DESIGN.md §4 C15",
-    text="The design (one TLA+ action per step of ShutdownWithContext / closeIdleConns / Serve / the serve loop) is model-checked exhaustively for 2 connections x 2 requests (single or pipelined) x one Shutdown: when Shutdown returns nil the listeners are closed, Serve has returned, no connection is served, every started handler's response reached the connection (and none is ever dropped), Done is closed before the first closeIdleConns round, no connection with a request in progress is closed by closeIdleConns, and Shutdown terminates although idle keep-alive connections never send again (liveness under fairness of the server's own steps). TLC is also run on the design of the code as found and must produce the lost-response counterexample. Real executions (slow handlers, handlers waiting on Done, idle keep-alive connections, pipelined pairs, CloseOnShutdown on/off, Shutdown at a random moment) are recorded at the hooks and replayed against the same spec with all invariants evaluated in every reconstructed state; two directed interleavings are forced with blocking hooks (a connection turning active between closeIdleConns' idle test and its Close; closeIdleConns running while a response is buffered behind a pipelined request); after Shutdown returns nil the harness checks Serve returned, listener closed, no handler running, Done closed, idle connections closed, and that every request whose handler started was answered at the client.",
+    text="The design (one TLA+ action per step of ShutdownWithContext / closeIdleConns / Serve / the serve loop) is model-checked exhaustively for 2 connections x 2 requests (single or pipelined) x one Shutdown per serve cycle, with the Server object reused for further cycles (Serve again after Shutdown returned nil: stop flag reset, done re-created, connection identities recycled): when Shutdown returns nil the listeners are closed, Serve has returned, no connection is served, every started handler's response reached the connection (and none is ever dropped), Done is closed before the first closeIdleConns round in every cycle (s.done / s.doneClosed are modelled as the code keeps them), no connection with a request in progress is closed by closeIdleConns, and Shutdown terminates although idle keep-alive connections never send again (liveness under fairness of the server's own steps). TLC is also run on the design of the code as found and must produce the lost-response counterexample. Real executions (1-3 serve / shutdown cycles on one Server object; slow handlers, handlers waiting on Done, handlers that run until Done fires, idle keep-alive connections, pipelined pairs, CloseOnShutdown on/off, Shutdown at a random moment) are recorded at the hooks and replayed against the same spec with all invariants evaluated in every reconstructed state; two directed interleavings are forced with blocking hooks (a connection turning active between closeIdleConns' idle test and its Close; closeIdleConns running while a response is buffered behind a pipelined request); after Shutdown returns nil the harness checks in every cycle that Serve returned, listener closed, no handler running, Done closed, idle connections closed, and that every request whose handler started was answered at the client.",
     note="Trusted: hook placement (register / unregister / closeIdleConns steps under idleConnsMu; a Close is logged before it takes effect, counter decrements before, increments after), TLC, Go runtime. TimeoutHandler / hijack handlers (excepted by the property) are not used by the drivers. A freshly accepted connection that never sends a byte counts as idle only 5 s after the accept (as in net/http), so Shutdown may wait that long for it; the drivers' clients send at once. Real-code schedules are sampled plus the two forced interleavings. A separate direct scenario calls Shutdown on a Server used only through ServeConn (no listener): it returns nil at once with a handler running; this is recorded as known finding F-C15-1.",
 )
 
@@ -35,7 +35,7 @@ def run(ctx):
     if "Invariant InvAnswered is violated" not in r["out"]:
         raise Infra("TLC did not reproduce the lost-response counterexample on the as-found design (exit %d)" % r["code"])
     ctx.extra["as_found_design_counterexample"] = "InvAnswered violated (response of a started handler lost), found by TLC"
-    ntr = ctx.pick(30, 700)
+    ntr = ctx.pick(18, 400)
     ngate = ctx.pick(2, 12)
     recs = ctx.go_test(".", ["c15_"], "^TestVerifC15Shutdown$", timeout=2400,
                        env={"VERIF_C15_TRACES": ntr, "VERIF_C15_GATES": ngate})
@@ -45,7 +45,7 @@ def run(ctx):
         raise Infra("expected 2 trace files, got %d" % len(files))
     for f in files:
         ctx.validate_traces("server", "ShutdownTrace", f, label=f.rsplit("/", 1)[-1])
-    ctx.rule = ("one execution = one Server lifetime: 1-4 keep-alive connections with 1-3 batches of 1-2 (pipelined) requests, "
+    ctx.rule = ("one execution = one Server object through 1-3 serve / shutdown cycles, each with 1-4 keep-alive connections with 1-3 batches of 1-2 (pipelined) requests, "
                 "handlers of 0-1.2 ms, one Shutdown at a random moment within 4 ms (or one of two forced interleavings); all non-trivial")
     ctx.assumptions = ["model constants: 2 connections, up to 2 requests each (single or pipelined pair), one Shutdown",
                        "handlers return; clients read their responses and keep the connection open until the server closes it",
